@@ -274,6 +274,24 @@ pub fn on_proposal(s: &mut HState, proposal: &MlsMessage, ctx: &mut Ctx) {
             Err((loc, msg)) => ctx.violation_for("C16", format!("observer-panic|{loc}"), msg),
         }
     }
+    // every third observer is stored and restored while it holds the cached proposal: the
+    // commit that references it must still be accepted by the restored instance (on_commit)
+    for (i, o) in s.obs.observers.iter_mut().enumerate() {
+        if i % 3 == 1 && !o.missed_proposal {
+            ctx.eval();
+            let snap = o.g.snapshot();
+            match client(&s.w, o.jitter).load_group(snap) {
+                Ok(g2) => {
+                    if g2.group_context() != o.g.group_context() || g2.export_tree().ok() != o.g.export_tree().ok() {
+                        ctx.violation_for("C16", "observer-reload-differs", "an observer restored from its snapshot (with cached proposals) differs from the original");
+                    }
+                    o.g = g2;
+                    ctx.goal("observer-reloaded-with-cached-proposal");
+                }
+                Err(e) => ctx.violation_for("C16", format!("observer-reload-failed|{}", err_name(&e)), format!("{e:?}")),
+            }
+        }
+    }
     spawn_some(s, true, ctx);
 }
 
